@@ -251,6 +251,9 @@ func (eq *externalBaseQueue) Purge() {
 			j.Close()
 		}
 	}
+
+	// let the worker re-evaluate, waiters may be parked on the jobs just removed
+	eq.w.notifyToPullNextJobs()
 }
 
 func (eq *externalBaseQueue) Close() error {
